@@ -18,6 +18,7 @@ import (
 	"encoding/json"
 	"fmt"
 	"math/rand"
+	"os"
 	"strings"
 	"sync"
 	"testing"
@@ -53,17 +54,27 @@ func tickOf(t time.Time) int {
 }
 
 type recorder struct {
-	mu sync.Mutex
-	b  *tv.Batch
-	n  int
+	mu     sync.Mutex
+	b      *tv.Batch
+	n      int
+	closed bool // the run is over: late goroutines must not write into the next trace
+	runs   int  // "run" events so far
 }
 
 func (r *recorder) ev(name string, m tv.M) {
 	r.mu.Lock()
 	defer r.mu.Unlock()
+	if r.closed {
+		return
+	}
 	r.b.Ev(name, m)
 	r.n++
+	if name == "run" {
+		r.runs++
+	}
 }
+
+func (r *recorder) nruns() int { r.mu.Lock(); defer r.mu.Unlock(); return r.runs }
 
 // hsched is a harness schedule: the instants whose LOCAL wall-clock tick index
 // (in the zone of the time handed to Next, as for a parsed spec) is lph mod p.
@@ -211,6 +222,8 @@ type result struct {
 	err      error
 	stuck    int
 	hook     []string
+	// caller ops issued while a timer expiry was waiting to be picked up, by how the scheduler's select resolved
+	raceWake, raceOp int
 }
 
 func isCronGate(p string) bool { return strings.HasPrefix(p, "cron.") }
@@ -278,9 +291,24 @@ func runProgram(b *tv.Batch, prog program, seed int64) result {
 			rec.ev("jobend", tv.M{"id": id})
 		}
 	}
+	res := result{}
+	raced, runsAtCall := false, 0
+	settleRace := func() { // called when the op in flight has returned
+		if raced {
+			if rec.nruns() > runsAtCall {
+				res.raceWake++
+			} else {
+				res.raceOp++
+			}
+			raced = false
+		}
+	}
 	doStep := func(s step) func() {
 		return func() {
 			pc++
+			if s.Op == "sched" || s.Op == "remove" || s.Op == "entries" || s.Op == "stop" {
+				raced, runsAtCall = clk.pending() && cronParked() && !isMidWake(), rec.nruns()
+			}
 			switch s.Op {
 			case "sched":
 				nextID++
@@ -352,6 +380,9 @@ func runProgram(b *tv.Batch, prog program, seed int64) result {
 	lastQ := -1
 	d := &sched.Driver{C: ctl, Rng: rng, MaxSteps: 600}
 	d.AtQuiescence = func(parked []*sched.Parked, s sched.Snapshot) {
+		if !inflight() {
+			settleRace()
+		}
 		if inflight() || clk.pending() || isMidWake() {
 			return
 		}
@@ -433,7 +464,7 @@ func runProgram(b *tv.Batch, prog program, seed int64) result {
 		}
 		return weight(ch)
 	}
-	res := result{trace: tr}
+	res.trace = tr
 	err := d.Run()
 	if err == nil {
 		// final phase: everything parked is let go, pending wake-ups are taken
@@ -459,6 +490,9 @@ func runProgram(b *tv.Batch, prog program, seed int64) result {
 	hmu.Lock()
 	res.hook = append([]string{}, hookTrace...)
 	hmu.Unlock()
+	rec.mu.Lock()
+	rec.closed = true
+	rec.mu.Unlock()
 	ctl.Shutdown()
 	if res.stuck == 0 {
 		done := make(chan struct{})
@@ -467,6 +501,7 @@ func runProgram(b *tv.Batch, prog program, seed int64) result {
 		case <-done:
 		case <-time.After(2 * time.Second):
 		}
+		_, _ = ctl.Quiesce(200 * time.Millisecond) // let the goroutines of this run drain
 	}
 	return res
 }
@@ -683,7 +718,11 @@ func TestCheck(t *testing.T) {
 		e.Inconclusive("trace validation did not run: " + res.What + res.Tail(1500))
 		return
 	}
-	races := raceOutcomes(jb)
+	races := map[string]int{"wake-first": 0, "op-first": 0}
+	for _, r := range results {
+		races["wake-first"] += r.raceWake
+		races["op-first"] += r.raceOp
+	}
 	fmt.Printf("racing select outcomes observed: %v\n", races)
 	e.Set("race_outcomes", races)
 	e.Set("evaluations", int64(b.Len()))
@@ -717,36 +756,32 @@ func keyOf(why string, p program) string {
 	return k + ":" + p.Mode + ":" + class
 }
 
-// raceOutcomes counts, over the judged traces, how a caller op issued against a pending expiry was resolved.
-func raceOutcomes(b *tv.Batch) map[string]int {
-	out := map[string]int{"wake-first": 0, "op-first": 0}
-	for i := 0; i < b.Len(); i++ {
-		owed := false
-		inop := false
-		for _, l := range b.TraceStrings(i) {
-			switch {
-			case strings.Contains(l, `"ev":"adv"`):
-				owed = true
-			case strings.Contains(l, `"ev":"run"`):
-				if inop && owed {
-					out["wake-first"]++
-					inop = false
-				}
-				owed = false
-			case strings.Contains(l, `_call"`):
-				inop = owed
-			case strings.Contains(l, `_ret"`):
-				if inop && owed {
-					out["op-first"]++
-				}
-				inop = false
-			}
-		}
+// replayProgram: ./check C05 --replay <file written by a violation> re-runs that history under its recorded schedule first.
+func replayProgram() *program {
+	path := os.Getenv("VERIF_REPLAY")
+	if path == "" {
+		return nil
 	}
-	return out
+	raw, err := os.ReadFile(path)
+	if err != nil {
+		return nil
+	}
+	var doc struct {
+		Replay struct {
+			Program  program  `json:"program"`
+			Schedule []string `json:"schedule"`
+		} `json:"replay"`
+	}
+	if json.Unmarshal(raw, &doc) != nil || len(doc.Replay.Program.Steps) == 0 {
+		return nil
+	}
+	p := doc.Replay.Program
+	p.Prefix = doc.Replay.Schedule
+	if p.Prefix == nil {
+		p.Prefix = []string{}
+	}
+	return &p
 }
-
-func replayProgram() *program { return nil }
 
 func selfTest(e *ev.Evidence) {
 	b := &tv.Batch{}
